@@ -370,7 +370,13 @@ const std::vector<db_obs>& db_observers()
          }},
         {"db.uuid", [] { return uuid_text(DB().uuid()); }},
         {"db.version_name", [] { return hexstr(DB().version_name()); }},
-        {"db.directory", [] { return hs(DB().directory()); }},
+        {"db.directory",
+         []
+         {
+             // masked (like the uuid) when observations of different libraries are compared
+             if (g_mask_uuid) return std::string(DB().directory() == (S.dir.empty() ? ":memory:" : S.dir) ? "as-given" : "other");
+             return hs(DB().directory());
+         }},
         {"db.verify",
          []
          {
